@@ -53,13 +53,17 @@ class _MixtureOfProductDistribution(NamedTuple):
             elif isinstance(d, _BatchedTruncNormDistributions):
                 active_mus = d.mu[active_indices]
                 active_sigmas = d.sigma[active_indices]
-                ret[:, i] = _truncnorm.rvs(
+                samples = _truncnorm.rvs(
                     a=(d.low - active_mus) / active_sigmas,
                     b=(d.high - active_mus) / active_sigmas,
                     loc=active_mus,
                     scale=active_sigmas,
                     random_state=rng,
                 )
+                # ``ppf * scale + loc`` may leave [low, high] by a rounding error, which is not
+                # small when ``loc`` is far outside of the range (e.g., a kernel centred on a
+                # value observed under an older, wider range of the same parameter).
+                ret[:, i] = np.clip(samples, d.low, d.high)
             elif isinstance(d, _BatchedDiscreteTruncNormDistributions):
                 active_mus = d.mu[active_indices]
                 active_sigmas = d.sigma[active_indices]
